@@ -2870,25 +2870,32 @@ func (s *Storage) Decode(d *Decoder) error {
 
 	// Init the map
 	*s = make(Storage, length)
+	prevKey := ""
 	for i := uint64(0); i < length; i++ {
 		// Decode the of the key
 		// INFO: we want to read the vectors from jamtestnet, so we follow the same
 		// pattern as in the jamtestnet. They put the length of the key before the
 		// key
-		length, err := d.DecodeLength()
+		keyLength, err := d.DecodeLength()
 		if err != nil {
 			return err
 		}
 
-		if length == 0 {
-			return nil
-		}
-
+		// An empty key is a key like any other (it must not end the dictionary), and the
+		// length written in front of the key has to be the length of the key that follows.
 		var key ByteSequence
 		if err = key.Decode(d); err != nil {
 			return err
 		}
+		if keyLength != uint64(len(key)) {
+			return fmt.Errorf("storage key length %d does not match the key (%d bytes)", keyLength, len(key))
+		}
 		str := string(key)
+		// keys are written in ascending order without duplicates
+		if i > 0 && str <= prevKey {
+			return errors.New("storage keys are not in strictly ascending order")
+		}
+		prevKey = str
 
 		var val ByteSequence
 		if err = val.Decode(d); err != nil {
